@@ -119,3 +119,40 @@ def t_none(): return None is None, None == 0, [None] * 2, (None or 3)
 def t_set(): 
     s = set([1, 2]); s.add(3); s.discard(1)
     return sorted(s), 2 in s, sorted(s | {9}), sorted(s & {2}), len(s)
+def t_alias_iadd():
+    a = [1, 2]; b = a
+    b += [3]                      # list += extends IN PLACE: visible through a
+    t = (1,); u = t
+    u += (2,)                     # tuple += rebinds
+    s = "x"; r = s
+    r += "y"
+    class H:
+        def __init__(self): self.items = []
+    h = H(); keep = h.items
+    h.items += [7, 8]
+    d = {"k": [0]}; same = d["k"]
+    d["k"] += [1]
+    def grow(lst):
+        lst += [9]
+        return lst
+    g = [5]; g2 = grow(g)
+    m = [1]; n = m
+    n *= 2
+    return a, b, a is b, t, u, s, r, keep, h.items is keep, same, d["k"] is same, g, g2 is g, m, n is m
+def t_alias_plus():
+    a = [1, 2]; b = a
+    b = b + [3]                   # + builds a new list
+    def f(x=[]):
+        x.append(1)
+        return x
+    c = f(); e = f()
+    p = q = []
+    p.append(1)
+    z = a[:]; z.append(9)
+    return a, b, c, e, c is e, q, a, z
+def t_alias_setdict():
+    s = {1}; t = s
+    t |= {2}
+    d = {"a": 1}; e = d
+    e |= {"b": 2}
+    return sorted(s), s is t, sorted(d.items()), d is e
